@@ -63,7 +63,7 @@ def fuzz_obligations(prop: str, rep: Report, root: str) -> None:
     from .selftest import havoc, rewrite
 
     rep.rule("FUZZ", "no false alarm under behaviour-preserving edits: (a) every computed value wrapped in an unmodelled identity (copy.copy) - answer 0 or 2, never 1; "
-             "(b) every applicable local rewrite (comparison orientation, chained comparison, or-chain -> membership, if/else <-> conditional expression, hexlify().decode() -> .hex(), "
+             "(b) every applicable local rewrite (18 kinds, see DESIGN 2.7: comparison orientation, chained comparison, or-chain -> membership, if/else <-> conditional expression, hexlify().decode() -> .hex(), "
              "elif -> nested if, dict(map(lambda)) -> comprehension, return via a local) - answer 0", 50)
     if os.environ.get("SA_NO_SELFTEST") == "1":
         rep.ok("FUZZ", "skipped (nested run)", "-")
